@@ -49,6 +49,27 @@ def run(ctx):
         if exact_terms_ok(l.terms) and exact_terms_ok(r.terms):
             add('hc_antihom', '(fermi_equiv %s %s && dict_eqb lfactor lfeqb %s %s)' % (coq_fop(l), coq_fop(r), coq_fop(of.hermitian_conjugated(hc)), coq_fop(a)),
                 {'call': 'hc(a*b) vs hc(b)*hc(a); hc(hc(a))', 'a': tdict(a), 'b': tdict(b)}, key=repr((sorted(terms), sorted(terms2))))
+    # InteractionOperator (complex constant, non-Hermitian tensors) and matrices
+    from .c04 import rand_hermitian_iop
+    from .c08 import spec_poly
+    import scipy.sparse as _sp
+    for i in range(N(40, 300)):
+        n = rng.choice([1, 2, 3]); const, one, two = rand_hermitian_iop(rng, n)
+        const = complex(dyc(rng))
+        for _ in range(rng.randint(0, 2)): one[rng.randrange(n), rng.randrange(n)] += dyc(rng)
+        if rng.random() < 0.5: two[tuple(rng.randrange(n) for _ in range(4))] += dyc(rng)
+        iop = of.InteractionOperator(const, one, two)
+        hc = of.hermitian_conjugated(iop)
+        da, db = spec_poly(iop.n_body_tensors), spec_poly(hc.n_body_tensors)
+        if exact_terms_ok(da) and exact_terms_ok(db):
+            add('hc_interaction_operator', '(fermi_equiv %s (hc_map %s))' % (coq_fop_terms(db), coq_fop_terms(da)),
+                {'call': 'hermitian_conjugated(InteractionOperator)', 'constant': repr(const), 'one_body': repr(one.tolist())}, key=repr(da))
+        m = rng.choice([2, 3]); M = np.array([[dyc(rng) for _ in range(m)] for _ in range(m + rng.choice([0, 1]))])
+        for fmt, X in (('ndarray', M), ('csc', _sp.csc_matrix(M))):
+            H_ = of.hermitian_conjugated(X); H_ = H_.toarray() if hasattr(H_, 'toarray') else np.asarray(H_)
+            ctx.count('hc_matrix', 1, nontrivial_key=(i, fmt))
+            if H_.shape != M.T.shape or not np.array_equal(H_, M.conj().T):
+                ctx.violation('C07 hermitian_conjugated(%s matrix) is not the conjugate transpose' % fmt, {'matrix': repr(M.tolist())})
     for kind in ('boson', 'quad', 'qubit'):
         for i in range(N(60, 600)):
             pool = rng.choice([[0, 1, 2], [2, 11, 64]])
